@@ -32,6 +32,16 @@ PACKAGES = {
 }
 
 
+# K9 compile-fail witnesses per property: (witness crates, number of fail_* witnesses expected)
+WITNESSES = {
+    "C02": (["core"], 1),
+    "C07": (["core"], 3),
+    "C08": (["merkle"], 2),
+    "C09": (["core"], 1),
+    "C17": (["merkle", "core"], 5),
+}
+
+
 def log(*a):
     print(*a, file=sys.stderr, flush=True)
 
@@ -315,6 +325,10 @@ def main(argv):
         a.pid = v["property"]
     if a.prime:
         ensure_facts(force=a.force)
+        sys.path.insert(0, os.path.join(VERIF, "rules"))
+        import witness
+        for crate in ("merkle", "core"):
+            witness.run(crate)          # warms the witness crates' dependency builds
         return 0
     if not a.pid:
         ap.error("property id required")
@@ -336,6 +350,16 @@ def main(argv):
         traceback.print_exc()
         rep.fail("engine", "exception", "rule engine raised an exception (fail closed): "
                  + traceback.format_exc().splitlines()[-1])
+    if a.pid in WITNESSES:
+        import witness
+        try:
+            crates, floor = WITNESSES[a.pid]
+            n = witness.check(rep, crates, a.pid)
+            rep.floor("K9", n, floor, "compile-fail witnesses naming this property")
+        except Exception:
+            traceback.print_exc()
+            rep.fail("K9", "exception", "witness runner raised an exception (fail closed): "
+                     + traceback.format_exc().splitlines()[-1])
     if a.tier == "thorough":
         import selftest
         try:
